@@ -508,6 +508,36 @@ func main() {
 		}
 	}
 
+	// descriptor-driven operations (Fetch / Delete / Referrers / Mount / Push / Tags)
+	lasts := []string{"", "", "v1", "a b", "a&b=c", "x#y", "a?b", "\xc3\xa9", "%41", "a+b", "../x", "=&", strings.Repeat("t", 128)}
+	for _, base := range bases {
+		if !baseJudged(base) || strings.HasSuffix(base.Registry, ":") {
+			continue
+		}
+		for i := 0; i < run.Scale(1500, 30000); i++ {
+			op := common.Pick(r, descOpKinds)
+			d := randDigest(r)
+			if !okDigest(d) && (!cleanForURL(d) || r.Chance(2, 3)) {
+				d = randDigestValid(r)
+			}
+			a1 := common.Pick(r, lasts)
+			if r.Chance(1, 4) {
+				bs := make([]byte, r.Intn(10))
+				for i := range bs {
+					bs[i] = byte(r.Intn(256))
+				}
+				a1 = string(bs)
+			}
+			if op == "dmount" {
+				a1 = common.Pick(r, []string{"a", "library/x", "a__b/c.d", "x-y/z"})
+				if r.Chance(1, 6) {
+					a1 = common.Pick(r, []string{"a&mount=x", "Up", "a b", ""})
+				}
+			}
+			descOpCase(base, op, r.Bool(), d, a1, common.Pick(r, []int{0, 0, -1, 1, 50, 1000}))
+		}
+	}
+
 	// URL builders on accepted references
 	for i := 0; i < run.Scale(8000, 100000); i++ {
 		ref, err := registry.ParseReference(randomValid(r))
@@ -528,7 +558,7 @@ func coverageFloors() {
 		"registry": 100000, "registry_ok": 3000, "registry_ok_bracket": 200, "constructed": 20000, "constructed_accept": 5000, "parse_ok": 2000, "parse_judged_accept": 1500, "parse_judged_reject": 50000, "repo_ok": 2000, "repo_err": 5000,
 		"repo_other_path_rejected": 3000, "component_repo_ok": 5000, "component_digest_ok": 3000, "component_tag_ok": 500,
 		"op_mresolve": 500, "op_mfetchref": 500, "op_tag": 500, "op_pushref": 500, "op_bresolve": 500, "op_bfetchref": 500,
-		"op_sent": 3000, "op_refused": 3000, "op_ground_truth": 500,
+		"descop_judged": 3000, "descop_dmfetch": 300, "descop_dmdelete": 300, "descop_dbfetch": 300, "descop_dbdelete": 300, "descop_dreferrers": 300, "descop_dmount": 300, "descop_dbpush": 300, "descop_dtags": 300, "op_sent": 3000, "op_refused": 3000, "op_ground_truth": 500,
 		"url_manifest": 100, "url_blob": 100, "url_referrers": 100, "url_taglist": 100, "url_upload": 100, "url_base": 100, "url_catalog": 100, "url_repobase": 100,
 		"url_query_referrers": 100, "url_query_mount": 100,
 	}
@@ -559,6 +589,13 @@ func replay(path string) {
 			repoCase(registry.Reference{Registry: c["registry"], Repository: c["repository"], Reference: c["basereference"]}, c["input"])
 		case "V":
 			componentCase(c["kind"], c["input"])
+		case "D":
+			n, _ := strconv.Atoi(c["n"])
+			for v := 0; v <= 4; v += 4 {
+				forcedVariant = v
+				descOpCase(registry.Reference{Registry: c["registry"], Repository: c["repository"]}, c["kind"], c["plain"] == "true", c["reference"], c["input"], n)
+			}
+			forcedVariant = -1
 		case "G":
 			registryCase(c["input"])
 		case "F":
